@@ -125,6 +125,18 @@ func (c19) Gen(r *sim.Rand, tier string, run uint64) *sim.Scenario {
 	} else if set, base := genBase(r, size+8); set {
 		ops = append([]sim.Op{{K: "setbase", N: []int64{int64(base)}}}, ops...)
 	}
+	if r.Chance(1, 12) && len(ops) > 3 {
+		// a second part assembled for another address into the same buffer (a ROM routine followed
+		// by one that runs from WRAM): SetBase in the middle of the program. Emission simply
+		// continues in the buffer; only the program counter moves
+		at := r.Range(2, len(ops)-1)
+		if ops[at].K != "append" && ops[at-1].K != "clone" {
+			nb := int64(sim.PickInt(r, 0x7E2000, 0x7F0000, 0x008000, 0x000100, r.Intn(1<<24)))
+			out := append([]sim.Op{}, ops[:at]...)
+			out = append(out, sim.Op{K: "setbase", N: []int64{nb}})
+			ops = append(out, ops[at:]...)
+		}
+	}
 	var caps []int64
 	if tier == "thorough" {
 		for c := 0; c <= size; c++ {
@@ -166,6 +178,21 @@ func (c19) Exec(sc *sim.Scenario, env *sim.Env) *sim.Violation {
 		}
 		ops = append(ops, op)
 		total += opSize(op)
+	}
+	// a base set after bytes were emitted: addresses and buffer offsets part company, which
+	// Finalize is not asked to cope with (C06: "set at most once, before the first emission")
+	midBase := false
+	for i, op := range ops {
+		if op.K == "setbase" && i > 0 {
+			for _, o := range ops[:i] {
+				if opSize(o) > 0 {
+					midBase = true
+				}
+			}
+		}
+	}
+	if midBase {
+		st.Probe("base_set_again_after_emission")
 	}
 	env.SetWatchdog(uint64(len(ops)+1) * uint64(len(caps)+2) * 400000)
 
@@ -343,7 +370,7 @@ func (c19) Exec(sc *sim.Scenario, env *sim.Env) *sim.Violation {
 		}
 		// a refused label-reference instruction must leave no trace either: Finalize sees only
 		// the references of instructions that were accepted
-		{
+		if !midBase {
 			wantOK, _ := m.finalizeExpect()
 			var ferr error
 			p, pv := sim.RecoverLib(func() { ferr = e.Finalize() })
